@@ -994,7 +994,8 @@ func checkC10(c *Ctx) {
 	c.Decides("UNCOND-PREP: FBP and TBE re-index every bootstrap tree and compare its taxa with the reference for every tree received without error (ReinitIndexes / CompareTipIndexes sit under tests of errors and cancellation only); SEND-KEY: what FBP's workers send to the collector is the position of the enclosing loop over the reference branches")
 	c.uncondPrep("UNCOND-PREP", c.Func("support", "", "FBP"), []string{"ReinitIndexes", "CompareTipIndexes"}, "bootstrap trees on other taxa are rejected with an error")
 	c.uncondPrep("UNCOND-PREP", c.Func("support", "", "TBE"), []string{"ReinitIndexes", "CompareTipIndexes"}, "bootstrap trees on other taxa are rejected with an error")
-	c.Floor("UNCOND-PREP", 4)
+	c.uncondPrep("UNCOND-PREP", c.Func("support", "", "TBE"), []string{"SetId"}, "transfer support equals 1 - (average minimum transfer distance)/(p-1)")
+	c.Floor("UNCOND-PREP", 5)
 	c.sendKey("SEND-KEY", c.Func("support", "", "FBP"), "Felsenstein support equals the fraction of bootstrap trees containing the split")
 	c.Floor("SEND-KEY", 1)
 	c.Decides("MEMO-STORED: the transfer-distance recursion stores the light-side count of a bootstrap branch (`ones[...]`) before anything in that block can return: its caller reads the entry right after the call")
